@@ -400,8 +400,14 @@ def gen_chain(seed: str) -> dict:
         for _ in range(pre):
             tag += 1
             body.append(f"    op_pre({tag});")
+        if r.random() < 0.4:
+            # leaving the expansion early: the jump to the end label of the expansion is how an outer blueprint first meets
+            # that label
+            body.append("    if (debug) {\n        return;\n    }")
         if i + 1 < k:
             body.append(f"    ~m{i + 1}();")
+        if r.random() < 0.2:
+            body.append("    if (edit) {\n        return;\n    }")
         for _ in range(post):
             tag += 1
             body.append(f"    op_post({tag});")
